@@ -230,7 +230,9 @@ static void mon_load(void* addr, int order) {
   }
   if (addr == (void*)&era_clock) { mon_era_loads++; mon_last_era_clk = xv_clock; mon_last_era_val = era_clock; }
 }
+int mon_blk_order = -1;      /* order of the store that publishes a new dynamic block (he_block) to the scanning threads */
 static void mon_store(void* addr, int order) {
+  if (addr == (void*)&g_cb.he_block) mon_blk_order = order;
   for (int i = 0; i < NSLOT; i++) if (slot_live(i) && addr == (void*)&SLOT(i)->value) {
     if (SLOT(i)->value.mark == 0) mon_unfenced_era_store = 1;          /* an era was published ... */
     mon_slot_stored = 1; mon_last_slot_store_clk = xv_clock;
@@ -611,6 +613,7 @@ static void h_dyn_alloc(void) {
     XV_OBL("he.dyn.new_block", r == &g_new.slots[0] && r->guard_cnt == 1 && g_td.hint == (hes > 1 ? &g_new.slots[1] : (struct hazard_era*)0));
     _Bool old_same = 1; for (int i = 0; i < 3 * XV_K; i++) if (slot_live(i)) old_same = old_same && slot_same(i);
     XV_OBL("he.dyn.new_block", old_same);
+    XV_OBL("he.dyn.new_block", XV_IS_RELEASE(mon_blk_order));      /* sync: the initialised block is published by a release store (8) */
     for (int j = 0; j < XV_NEWMAX; j++) witness_set(3 * XV_K + j, (size_t)j < hes && j > 0 ? (unsigned char)(hes - j) : 0);    /* witness for the chain of the new block */
     g_height = (unsigned char)(hes - 1);
     XV_CANARY("dyn.new_block");
